@@ -6,6 +6,7 @@ cd "$(dirname "$0")"
 export CARGO_NET_OFFLINE=true
 mkdir -p .cache evidence out
 python3 tools/featgen.py /repo coq/Generated/Features.v >/dev/null
+python3 tools/rs2v.py /repo coq/Generated >/dev/null || echo "setup: tools/rs2v.py could not translate every configured function (the checks report it)"
 ( cd coq && coq_makefile -f _CoqProject -o Makefile >/dev/null && timeout 3000 make -j"$(nproc)" )
 bash runner/build.sh
 for v in full nostd; do
